@@ -66,10 +66,12 @@ Definition run_case (c : scase) : list nat :=
   | PErr _ => []
   end.
 
-(* C01: the codes of run_case, plus 9 when the schema lies in the fragment on which
-   C01_validity_plain is proved (Plain.plainb, sound by C01_plain_checker) *)
+(* C01: the codes of run_case, plus 9 when the schema lies in the class-free fragment on which
+   C01_validity_plain is proved (Plain.plainb, sound by C01_plain_checker) and 10 when it lies in
+   the fragment with classes of C01_validity_classes_top (Plain.in_fragment, C01_fragment_checker) *)
 Definition run_case_c01 (c : scase) : list nat :=
-  run_case c ++ (if plainb (cfg_of c) 200 (sc_schema c) then [9] else []).
+  run_case c ++ (if plainb (cfg_of c) false 200 (sc_schema c) then [9] else [])
+             ++ (if in_fragment (cfg_of c) true 200 (sc_schema c) then [10] else []).
 
 (* diagnostic view *)
 Definition show_case (c : scase) :=
